@@ -280,9 +280,18 @@ func sizeClusters(tier string, noNull bool) (labels []string, clusters [][]*rj.V
 func rareClusters() [][]*rj.Value {
 	big := strings.Repeat("9", 60)
 	return [][]*rj.Value{
-		parseAll([]string{`{"n":1E+2}`, `{"n":1e-0}`, `{"n":-0.0}`, `{"n":0e0}`, `{"n":1E+2,"m":1}`, `{"n":100}`, `{"n":` + big + `}`, `{"n":` + big[:59] + `8}`, `{"n":[1E+2,-0.0]}`, `{"n":[1E+2,-0]}`, `{"n":{"n":1e-0}}`}),
+		parseAll([]string{`{"n":1E+2}`, `{"n":1e-0}`, `{"n":-0.0}`, `{"n":0e0}`, `{"n":1E+2,"m":1}`, `{"n":100}`, `{"n":` + big + `}`, `{"n":` + big[:59] + `8}`, `{"n":[1E+2,-0.0]}`, `{"n":[1E+2,-0]}`, `{"n":{"n":1e-0}}`,
+			`{"n":1e05}`, `{"n":2.5E+05}`, `{"n":1e-07}`, `{"n":0.0e00}`, `{"n":1e007,"m":[1e-07]}`, `{"n":1e5}`, `{"n":0.000}`, `{"n":10E-01}`}),
 		parseAll([]string{`{"":1}`, `{"":{"":1}}`, `{"":{"":2}}`, `{"":"","x":""}`, `{"x":""}`, `{"\ud83d\ude00":1}`, `{"\ud83d\ude00":2}`, `{"\ud83d\ude01":1}`, `{"\u0000":1}`, `{"\u0000x":1}`, `{"\ufeffx":1}`,
 			`{"x":"\ufeff"}`, `{"x":"\u0000"}`, `{"x":"\ufeffx","\ufeff":{"\u0000":[""]}}`}),
+		// the same characters as a string and as a number / literal (a comparison by spelling or by reflect kind)
+		parseAll([]string{`{"ids":["12",7],"n":1}`, `{"ids":[12,7],"n":1}`, `{"r":[{"z":"90210","k":1}]}`, `{"r":[{"z":90210,"k":1}]}`, `{"z":"90210"}`, `{"z":90210}`, `{"v":["true","null","1e2"]}`, `{"v":[true,null,1e2]}`,
+			`{"v":["[]","{}"]}`, `{"v":[[],{}]}`, `{"v":"1"}`, `{"v":[1]}`, `{"v":["1"]}`, `{"v":1}`}),
+		// roots that are scalars, empty strings and their look-alikes
+		parseAll([]string{`""`, `null`, `0`, `false`, `[]`, `{}`, `"null"`, `"0"`, `" "`, `"false"`, `[""]`, `[null]`, `{"":""}`, `{"":null}`, `-0`, `0.0`}),
+		// arrays of documents: every pair of elements from a small object family (the array form of CreateMergePatch:
+		// what one element's diff leaves behind must not reach the next)
+		arraysOfDocs(),
 		parseAll([]string{`{"e":[[[[[[]]]]]]}`, `{"e":[[[[[{}]]]]]}`, `{"e":{"":{"":{"":{}}}}}`, `{"e":{"":{"":{"":[]}}}}`, `{"e":[]}`, `{"e":{}}`, `{"e":[[],{}]}`, `{"e":[{},[]]}`, `{}`, `{"e":[[[[[[]]]]]],"f":{}}`}),
 	}
 }
@@ -396,4 +405,15 @@ func runSizeSweepPanics(ctx *core.Ctx, id string, legacy bool, tier string) {
 		}
 		atomic.AddInt64(n, 1)
 	})
+}
+
+func arraysOfDocs() []*rj.Value {
+	objs := parseAll([]string{`{"id":1,"e":"a"}`, `{"id":2,"e":"b"}`, `{"id":2}`, `{"id":2,"e":"a"}`, `{"z":0}`, `{"z":0,"id":1}`, `{}`, `{"k":{"e":"a"}}`})
+	var out []*rj.Value
+	for _, a := range objs {
+		for _, b := range objs {
+			out = append(out, rj.NewArr(a, b))
+		}
+	}
+	return out
 }
